@@ -125,6 +125,9 @@ def run_job(pid, job, seed, tier, work):
 
     def one(i):
         out = os.path.join(work, "%s-%d.json" % (job["name"], i))
+        for stale in (out, out + ".partial"):
+            if os.path.exists(stale):
+                os.remove(stale)
         cmd, env = _shard_cmd(job, seed, tier, i, shards, out)
         try:
             p = subprocess.run(cmd, cwd=HARNESS, env=env, stdout=subprocess.PIPE, stderr=subprocess.PIPE, text=True, timeout=timeout)
@@ -139,6 +142,15 @@ def run_job(pid, job, seed, tier, work):
            "counters": {}, "minmax": {}, "samples": [], "hooks": {}, "panics": [], "rule": "", "exhaustive": True,
            "shards": shards, "infra_error": None}
     for i, out, rc, err, cmd in outs:
+        # a shard that did not end normally: what it had found (and put on disk) before still counts
+        if (rc != 0 or not os.path.exists(out)) and os.path.exists(out + ".partial"):
+            try:
+                for v in json.load(open(out + ".partial")).get("violations", []):
+                    v["job"] = job["name"]
+                    v["detail"] = (v.get("detail") or "") + " [reported by a shard that ended abnormally later (rc=%s)]" % rc
+                    res["violations"].append(v)
+            except Exception:  # noqa: BLE001
+                pass
         if rc == "timeout":
             res["inconclusive"]["shard-watchdog(%s)" % job["name"]] = res["inconclusive"].get("shard-watchdog(%s)" % job["name"], 0) + 1
             res["exhaustive"] = False
